@@ -66,3 +66,17 @@ Lemma step_trace_entry (s : mstate (V:=V)) (o : op I) :
 Proof. destruct o; simpl; try reflexivity; destruct (bop_has_choice b); reflexivity. Qed.
 
 End TraceFacts.
+
+(* ---- the "simplify" flag: a trace is reported iff some clause is decided ----- *)
+Definition trace_decided (t : list tchoice) : bool :=
+  existsb (fun c => match c with TBoth => false | _ => true end) t.
+
+Lemma no_trace_iff_all_both (t : list tchoice) :
+  trace_decided t = false <-> Forall (fun c => c = TBoth) t.
+Proof.
+  unfold trace_decided. induction t as [|c t IH]; simpl.
+  - split; [constructor | reflexivity].
+  - split.
+    + intros H. apply orb_false_iff in H as [Hc Ht]. constructor; [destruct c; try discriminate; reflexivity | now apply IH].
+    + intros H. inversion H as [|? ? Hc Ht]; subst. simpl. now apply IH.
+Qed.
